@@ -207,11 +207,11 @@ func view(ks api.MutableKeyStore) (string, []ringD) {
 }
 
 type v2Result struct {
-	outcome       string
-	bundle        []byte
+	outcome        string
+	bundle         []byte
 	accEnc, accSig []byte
-	tgt           api.MutableKeyStore
-	srcView       []ringD
+	tgt            api.MutableKeyStore
+	srcView        []ringD
 }
 
 var accessCounter int
